@@ -1235,6 +1235,55 @@ pub fn c12_variants(base: &Scenario, api_log: &[(usize, u32, crate::sched::ApiKi
     out
 }
 
+/// C10 under a raw-lock fault: the release of one member of a multi-member guard panics, the
+/// panic unwinds through the rest of the guard, whose Poisonable members are still held
+pub fn c10_release_fault_variants(base: &Scenario, api_log: &[(usize, u32, crate::sched::ApiKind, u32)], seed: u64) -> Vec<Scenario> {
+    use crate::sched::{OneShot, When};
+    let mut rng = Rng::new(seed ^ 0xC10F);
+    let mut shots: Vec<OneShot> = Vec::new();
+    for (tid, idx, kind, ops) in api_log {
+        if *kind != crate::sched::ApiKind::Release || *ops < 2 {
+            continue;
+        }
+        // a release that runs inside a destructor during an unwind cannot panic without
+        // aborting the process (Rust's own rule): such threads are left alone
+        let in_unwind = |st: &Step| matches!(st, Step::InUnwind(_)) || matches!(st, Step::Acquire(a) if a.release == Release::UnlockInDrop);
+        if base.program.threads.get(*tid).map(|th| th.iter().any(in_unwind)).unwrap_or(true) {
+            continue;
+        }
+        for k in 0..*ops - 1 {
+            shots.push(OneShot { tid: *tid, api_idx: *idx, op_idx: k, when: *rng.pick(&[When::Before, When::After]) });
+        }
+    }
+    rng.shuffle(&mut shots);
+    shots.truncate(3);
+    shots
+        .into_iter()
+        .map(|sh| {
+            let mut s = base.clone();
+            // the raw fault is the only panic of the victim thread: a second panic during the
+            // unwind of a first one aborts the process by Rust's own rules
+            for st in s.program.threads[sh.tid].iter_mut() {
+                match st {
+                    Step::Acquire(a) => {
+                        a.body.retain(|b| !matches!(b, BodyOp::Panic));
+                        for b in a.body.iter_mut() {
+                            if let BodyOp::NonAcq(op @ NonAcqOp::DebugPayloadPanic, _) = b {
+                                *op = NonAcqOp::Debug;
+                            }
+                        }
+                    }
+                    Step::NonAcq(op @ NonAcqOp::DebugPayloadPanic, _) => *op = NonAcqOp::Debug,
+                    _ => {}
+                }
+            }
+            s.cfg.faults.oneshots = vec![sh];
+            s.cfg.faults.try_refuse_pct = 0;
+            s
+        })
+        .collect()
+}
+
 /// C11: the panic injected at each critical section of each thread in turn
 pub fn c11_variants(base: &Scenario, seed: u64) -> Vec<Scenario> {
     let mut rng = Rng::new(seed ^ 0xC11C11);
